@@ -287,7 +287,13 @@ class MetadorDataset(MetadorNode):
     __wrapped__: H5DatasetLike
 
     # manually assembled from public methods which h5py.Dataset provides
-    _self_RO_FORBIDDEN = {"resize", "make_scale", "write_direct", "flush"}
+    _self_RO_FORBIDDEN = {
+        "resize",
+        "make_scale",
+        "write_direct",
+        "flush",
+        "copy_into_patch",  # (IH5)
+    }
     # ... and from the ones that yield the contents
     _self_SKEL_FORBIDDEN = {
         "get",
@@ -331,6 +337,12 @@ class MetadorDataset(MetadorNode):
     def __setitem__(self, *args, **kwargs):
         self._guard_acl(NodeAcl.read_only, "__setitem__")
         return self.__wrapped__.__setitem__(*args, **kwargs)
+
+    def __setattr__(self, key, value):
+        # the proxy forwards assignments to the raw node (e.g. shape = ... resizes)
+        if not key.startswith("_self_") and key != "__wrapped__":
+            self._guard_acl(NodeAcl.read_only, f"assignment to {key}")
+        super().__setattr__(key, value)
 
 
 # TODO: can this be done somehow with wrapt.decorator but still without boilerplate?
